@@ -145,6 +145,31 @@ def rule_first_wins(ctx):
     ctx.floor(R, "report pushes in analysis passes", n, 15)
 
 
+def rule_every_file_merged(ctx, R="C17.10"):
+    ctx.rule(R, "every file is merged whatever came before it: the loops over the files' definitions in the archive / library constructors, and over the parsed files in parse_files, have no early exit (a `break` or `return` at the first file with a duplicate makes the errors of the remaining files depend on the file order)")
+    import a10
+    import sgrep
+
+    n = 0
+    for f, name, qual in (("program_structure/src/program_library/program_archive.rs", "new", "ProgramArchive"), ("program_structure/src/program_library/template_library.rs", "new", "TemplateLibrary"),
+                          ("program_structure/src/program_library/program_merger.rs", "add_definitions", "Merger")):
+        fn = find_fn(f, name, qual)
+        if fn is None:
+            ctx.missing(R, "%s::%s" % (qual, name))
+            continue
+        pv = sgrep.params(fn)
+        tys = [i["ty"].replace(" ", "") for i in fn["sig"]["inputs"] if not i.get("self")]
+        total, cuts = 0, []
+        for p_, t_ in zip(pv, tys):
+            if "Contents" in t_ or "Vec<Definition>" in t_ or "HashMap<" in t_:
+                nl, cut = a10.loops_cut_short(fn["body"], p_)
+                total += nl
+                cuts += cut
+        n += total
+        ctx.check(R, "%s::%s/every-file-and-definition-visited" % (qual, name), total >= 1 and not cuts, "; ".join(cuts) or "%d loop(s) over the definitions, none with an early exit" % total, site(f, fn))
+    ctx.floor(R, "definition-merging loops", n, 3)
+
+
 def rule_cache(ctx):
     R = "C17.3"
     ctx.rule(R, "the per-definition CFG cache is keyed by the definition name; a CFG taken for an analysis is put back (if at all) under the same key and only on success")
@@ -192,9 +217,13 @@ def run(ctx):
     rule_versions(ctx)
     rule_cache(ctx)
     rule_first_wins(ctx)
+    rule_every_file_merged(ctx)
     import c03
 
     ctx.include("C17.6", "no finding is dropped by a de-duplication whose outcome depends on the order in which definitions, passes or files were processed: the runner and the writers never narrow a report collection (shared with C03.1)", c03.rule_drain, only=["no-narrowing", "appends-everything"])
+    import c18
+
+    ctx.include("C17.11", "whether a template is desugared does not depend on which templates the hash-ordered loop visited before it: anonymous components are resolved against the table handed to the desugaring, every template goes through both stages (shared with C18.2)", c18.rule_elimination, only=["remove_syntactic_sugar/templates/"])
     import procstate
 
     procstate.rule(ctx, "C17.9", "the findings for a definition do not depend on which definitions, files or curves the process looked at before it: no process-wide state in hand-written non-test code")
